@@ -23,6 +23,7 @@ import FontcProofs.FeaSubst
 import FontcProofs.FeaFlags
 import FontcProofs.FeaGlue
 import FontcProofs.FeaCorrectFlat
+import FontcProofs.FeaChainCorrect
 
 namespace Fontc.C11
 open Fontc.FeaCompile
@@ -104,6 +105,26 @@ theorem compile_correct_lookup_ligature (fx : Cmp.Fixes) (root : Nat) (named : S
 example : (∀ r ∈ [Rule.ligature [.g 1, .c [3, 4]] 11, .ligature [.g 1, .g 3, .g 5] 12], r.kind = .ligature)
     ∧ (([Rule.ligature [.g 1, .c [3, 4]] 11, .ligature [.g 1, .g 3, .g 5] 12]).flatMap Wf.ligSeqs).Nodup := by decide
 
+/-- **Contextual substitution lookups** (`sub x a' y by b;`, `sub x a' by b c;`, rules without
+    replacement, `ignore sub …`; no inline ligatures and no explicit lookup references yet): the
+    compiled lookup — one format 3 subtable per rule after `try_merge`, the inline replacements pooled
+    in the anonymous lookups `anonOf fx [] rs` that sit right after it (`hplaced`) — does at every
+    position what the first matching source rule says: the inline replacement at the marked glyph,
+    nothing for `ignore`.  `SingleOk`: the pairs of one inline substitution are consistent, and a
+    class → glyph inline substitution agrees with every earlier inline substitution of the lookup on
+    shared glyphs (fea-rs checks only its first glyph — defect F-C11-1). -/
+theorem compile_correct_lookup_chain (fx : Cmp.Fixes) (root : Nat) (named : String → Cmp.LookupId)
+    (gdefSrc : List (Glyph × Nat)) (gdef : OT.Gdef) (cf : Cmp.CFlag) (f : Flag) (alt : Nat) (env : String → Option Src.Lookup)
+    (lookups : List OT.Lookup) (d : Nat) (rs : List Rule) (hne : rs ≠ []) (hk : ∀ r ∈ rs, r.kind = .chain)
+    (hshape : ∀ r ∈ rs, inlineShapeOk r) (hok : SingleOk rs [])
+    (hign : ∀ y, OT.ignored gdef cf.1 cf.2 y = Src.ignored gdefSrc f y)
+    (hplaced : ∀ j a, (anonOf fx [] rs)[j]? = some a → lookups[root + j + 1]? = some (Cmp.buildAnonLookup cf a))
+    (name : Option String) (rev : List Glyph) (g : Glyph) (suf : List Glyph) :
+    OT.lookupStep gdef alt lookups (d + 1)
+        (Cmp.buildLookup cf (rs.foldl (Cmp.Builder.add fx root named) (Cmp.Builder.new .chain))) rev g suf
+      = Src.lookupStep gdefSrc alt env ⟨name, f, rs⟩ rev g suf :=
+  chain_lookup_correct fx root named gdefSrc gdef cf f alt env lookups d rs hne hk hshape hok hign hplaced name rev g suf
+
 /-- **Single positioning lookups.** -/
 theorem compile_correct_lookup_spos (fx : Cmp.Fixes) (root : Nat) (named : String → Cmp.LookupId) (rs : List Rule)
     (hk : ∀ r ∈ rs, r.kind = .spos) (hnd : (rs.flatMap Wf.targets).Nodup)
@@ -145,7 +166,9 @@ theorem shape_eq_interp_of_correspondence (p : Program) (t : OT.Tables) (script 
     whose statements are `lookupflag` and rule statements (`FlatBody`); every lookup of the program —
     a run of rules of one type under one flag, `Src.entries p` — is a single, multiple or alternate
     substitution or a single positioning lookup in which no glyph is targeted twice, or a ligature
-    substitution lookup in which no component sequence is given twice (`runOkB`, decidable); no
+    substitution lookup in which no component sequence is given twice, or a contextual lookup whose
+    rules carry inline single / multiple replacements or none (`ignore`), class → glyph inline
+    replacements agreeing with earlier ones on shared glyphs (`runOkB`, decidable); no
     single rule stands next to a multiple rule within a run (`NoMixFrom`, fea-rs would merge them);
     `lookupflag` classes are sorted sets, mark attachment classes come from a family `U` of
     pairwise disjoint classes (`FlagsOk`, `hU1`, `hU2`); GDEF entries are distinct.
@@ -168,21 +191,24 @@ theorem compile_correct_flat (fx : Cmp.Fixes) (p : Program) (ls : List (Tag × T
     (fun e he => runOk_of_runOkB _ (hents e he)) hgdef hU1 hU2 script lang hreg feats alt str
 
 /-! non-vacuity: a program with two language systems, GDEF classes, a `liga` feature with three
-    lookups (single and ligature under IgnoreMarks + MarkAttachmentType, multiple, alternate) and a
-    `kern` feature -/
+    lookups (single and ligature under IgnoreMarks + MarkAttachmentType, multiple, alternate), a `calt`
+    feature with a contextual lookup (inline single and multiple replacements, `ignore`) and a `kern`
+    feature -/
 
 def exLs : List (Tag × Tag) := [("DFLT", "dflt"), ("latn", "dflt")]
 def exFs : List (Tag × List Stmt) :=
   [("liga", [.flag { im := true, attach := some [13] }, .rule (.single (.g 1) (.g 2)), .rule (.single (.c [3, 4]) (.g 5)),
              .flag { il := true }, .rule (.ligature [.g 1, .c [3, 4]] 11), .rule (.ligature [.g 1, .g 3, .g 5] 12),
              .flag {}, .rule (.multiple 6 [7, 8]), .rule (.alternate 2 [9, 10])]),
+   ("calt", [.rule (.chain [] [(.g 4, [])] [.g 3] (.single (.g 5))), .rule (.chain [.g 3] [(.c [1, 6], [])] [] (.single (.g 7))),
+             .rule (.ignore [([], [.g 2], [.g 2])]), .rule (.chain [] [(.g 8, [])] [] (.multi [9, 10]))]),
    ("kern", [.rule (.spos (.c [1, 2]) ⟨0, 0, 10, 0⟩)])]
 def exProg : Program := { gdef := [(1, 1), (2, 1), (13, 3), (14, 3)], tops := lsTops exLs ++ featTops exFs }
 
 theorem exProg_bodies : ∀ x ∈ exFs, FlatBody x.2 ∧ FlagsOk [[13]] x.2 ∧ NoMixFrom {} x.2 := by
   intro x hx
   simp only [exFs, List.mem_cons, List.not_mem_nil, or_false] at hx
-  rcases hx with rfl | rfl
+  rcases hx with rfl | rfl | rfl
   · refine ⟨?_, ?_, ?_⟩
     · intro st hst; simp at hst; rcases hst with rfl | rfl | rfl | rfl | rfl | rfl | rfl | rfl | rfl <;> simp
     · intro f hf
@@ -191,6 +217,10 @@ theorem exProg_bodies : ∀ x ∈ exFs, FlatBody x.2 ∧ FlagsOk [[13]] x.2 ∧ 
       · exact ⟨⟨by intro c h; cases h; decide, by simp⟩, by intro c h; cases h; decide⟩
       · exact ⟨⟨by simp, by simp⟩, by simp⟩
       · exact ⟨⟨by simp, by simp⟩, by simp⟩
+    · simp [NoMixFrom, Src.walkStmt, Src.Walk.flush, headKind, Wf.mixes, Rule.kind]
+  · refine ⟨?_, ?_, ?_⟩
+    · intro st hst; simp at hst; rcases hst with rfl | rfl | rfl | rfl <;> simp
+    · intro f hf; simp at hf
     · simp [NoMixFrom, Src.walkStmt, Src.Walk.flush, headKind, Wf.mixes, Rule.kind]
   · refine ⟨?_, ?_, ?_⟩
     · intro st hst; simp at hst; subst hst; simp
